@@ -161,6 +161,17 @@ func runC07(r *hx.Run, replay string) {
 		if target.RuleFirst == 0 || target.Reporter == "yaml/parse" {
 			continue
 		}
+		if rr.Intn(3) == 0 {
+			// a rule block that enables the targeted check by name: `enable` re-enables what `check { disabled }` or
+			// --disabled switched off, it does not override control comments (docs/configuration.md)
+			cfg += fmt.Sprintf("\nrule {\n  enable = [%q]\n}\n", target.Reporter)
+			_, reps3, perr3 := c07Keys(cfg, file, r, 1<<30, 0)
+			if perr3 != "" || len(reps3) != len(reps) {
+				r.Count("enable-block-changes-baseline")
+				continue
+			}
+			r.Count("with-enable-block")
+		}
 		form := hx.Pick(rr, []string{"disable", "disable", "snooze-future", "snooze-past", "file/disable", "file/snooze-future", "file/snooze-past"})
 		var text string
 		switch form {
